@@ -94,7 +94,22 @@ type c13Env struct {
 	missing string
 	garbage string
 	metrics *metrics.Metrics
+	// files that are valid TOML but define no usable generation (what a reload sees while the file is
+	// being rewritten); the unchanged tree installs them: every registration is refused until the
+	// next good reload
+	emptyFiles map[string]string
 }
+
+var c13EmptyContents = map[string]string{
+	"empty":    "",
+	"nonet":    "# being rewritten\ntitle = \"phantom subnets\"\n",
+	"emptynet": "[Networks]\n",
+	"trunc":    "[Networks]\n    [Networks.1]\n        Generation = 1\n        [[Networks.1.WeightedSubnets]]\n            Weight = 1\n",
+}
+
+var c13EmptyKinds = []string{"empty", "nonet", "emptynet", "trunc"}
+
+const c13EmptyBase = 1000 // an installed set number t that is empty appears in windows as t+c13EmptyBase
 
 func c13SetCIDRs(i int) [][2]string {
 	return [][2]string{
@@ -153,6 +168,22 @@ func c13NewEnv(t testing.TB) *c13Env {
 		}
 		e.files = append(e.files, p)
 		e.nets = append(e.nets, nets)
+	}
+	e.emptyFiles = map[string]string{}
+	for k, content := range c13EmptyContents {
+		p := filepath.Join(dir, k+".toml")
+		if err := os.WriteFile(p, []byte(content), 0o644); err != nil {
+			t.Fatalf("harness problem: %v", err)
+		}
+		e.emptyFiles[k] = p
+		// anchor: the phantoms package loads such a file and the resulting selector refuses everything
+		sel, err := phantoms.SubnetsFromTomlFile(p)
+		if err != nil {
+			t.Fatalf("harness problem: %s file does not load: %v", k, err)
+		}
+		if _, err := sel.Select(bytes.Repeat([]byte{7}, 32), c13Generation, uint(core.CurrentClientLibraryVersion()), false); err == nil {
+			t.Fatalf("harness problem: selector from the %s file selects", k)
+		}
 	}
 	e.missing = filepath.Join(dir, "does-not-exist.toml")
 	e.garbage = filepath.Join(dir, "garbage.toml")
@@ -257,6 +288,9 @@ func c13SelectFails(gen uint, v6 bool, set int) bool {
 
 // c13Refused reports whether a request of this kind is refused when it is served from set i.
 func c13Refused(kind string, set int) bool {
+	if set >= c13EmptyBase {
+		return true
+	}
 	k := c13Kinds[kind]
 	return (k.v4 && c13SelectFails(uint(k.gen), false, set)) || (k.v6 && c13SelectFails(uint(k.gen), true, set))
 }
@@ -417,6 +451,25 @@ func (g c13G) blocked() bool {
 	return strings.HasPrefix(caller, "regprocessor.") || strings.HasPrefix(caller, "metrics.")
 }
 
+// polling reports whether the goroutine sleeps inside registrar code (a wait loop of the code under
+// test, e.g. a reload that polls until something drains). Like a lock wait it is a state in which the
+// actor makes no progress on its own account; unlike a lock wait it can end by itself, so it never
+// supports a "stall" verdict - see the end of c13Run.
+func (g c13G) polling() bool {
+	if g.state != "sleep" {
+		return false
+	}
+	lines := strings.Split(g.text, "\n")
+	for i := 1; i+1 < len(lines); i += 2 {
+		fn := lines[i]
+		if strings.HasPrefix(fn, "time.Sleep") {
+			continue
+		}
+		return strings.Contains(fn, "/regprocessor.") || strings.Contains(fn, "/metrics.")
+	}
+	return false
+}
+
 // where returns "sync.(*RWMutex).RLock <- regprocessor.(*RegProcessor).processBdReq regprocessor.go:514".
 func (g c13G) where() string {
 	lines := strings.Split(g.text, "\n")
@@ -453,7 +506,7 @@ func (g c13G) where() string {
 
 type c13Case struct {
 	Reqs     []string `json:"reqs"`               // "v4" | "v6" | "dual"
-	Reloads  []string `json:"reloads"`            // "new" | "missing" | "garbage"
+	Reloads  []string `json:"reloads"`            // "new" | "missing" | "garbage" | "empty" | "nonet" | "emptynet" | "trunc"
 	Schedule []string `json:"schedule,omitempty"` // authoritative when present: actor to move, "r<i>" or "L<j>"
 	Picks    []int    `json:"picks,omitempty"`    // otherwise: index into the list of enabled moves (mod its length); then first-enabled
 	Reduce   bool     `json:"reduce,omitempty"`   // requests move in index order within each segment between reload events
@@ -479,6 +532,7 @@ type c13Actor struct {
 	point    string
 	resume   chan struct{}
 	lastWait string // goroutine dump entry that last showed this actor in a lock wait
+	polls    bool   // "blocked" means: sleeps in a wait loop of the registrar, not in a lock wait
 
 	// request
 	req     *pb.C2SWrapper
@@ -515,7 +569,10 @@ type c13Sched struct {
 	inflight      *c13Actor
 	segLast       int
 	needRewrap    bool
-	startedMax    int // newest set a started reload is loading / has loaded
+	startedMax    int          // newest set a started reload is loading / has loaded
+	empty         map[int]bool // set numbers that are empty (reload of an empty-family file)
+	dead          map[int]bool // ... whose reload returned an error: never installed
+	lastGood      int          // newest non-empty set that was installed
 	rewrapSkipped bool
 	classes       map[string]bool
 	nontrivial    bool
@@ -563,7 +620,7 @@ func (s *c13Sched) park(a *c13Actor, pt string) {
 
 func c13NewSched(e *c13Env, c c13Case) (*c13Sched, error) {
 	s := &c13Sched{e: e, bySeed: map[string]*c13Actor{}, ev: make(chan c13Ev, 1024), abandon: make(chan struct{}),
-		segLast: -1, nextNew: 1, classes: map[string]bool{}}
+		segLast: -1, nextNew: 1, classes: map[string]bool{}, empty: map[int]bool{}, dead: map[int]bool{}}
 	for i, k := range c.Reqs {
 		if _, ok := c13Kinds[k]; !ok {
 			return nil, fmt.Errorf("bad request kind %q", k)
@@ -576,10 +633,10 @@ func c13NewSched(e *c13Env, c c13Case) (*c13Sched, error) {
 	}
 	nNew := 0
 	for j, k := range c.Reloads {
-		if k != "new" && k != "missing" && k != "garbage" {
+		if _, isEmpty := c13EmptyContents[k]; !isEmpty && k != "new" && k != "missing" && k != "garbage" {
 			return nil, fmt.Errorf("bad reload kind %q", k)
 		}
-		if k == "new" {
+		if _, isEmpty := c13EmptyContents[k]; isEmpty || k == "new" {
 			nNew++
 		}
 		s.reloads = append(s.reloads, &c13Actor{name: "L" + strconv.Itoa(j), reload: true, idx: j, kind: k})
@@ -668,6 +725,14 @@ func (s *c13Sched) move(a *c13Actor) {
 			path = s.e.files[a.target]
 		case "garbage":
 			path = s.e.garbage
+		case "empty", "nonet", "emptynet", "trunc":
+			// takes a set number like a valid file; that set refuses everything
+			a.target = s.nextNew
+			s.nextNew++
+			s.startedMax = a.target
+			s.empty[a.target] = true
+			path = s.e.emptyFiles[a.kind]
+			s.classes["reload-empty-family"] = true
 		}
 		os.Setenv("PHANTOM_SUBNET_LOCATION", path)
 		s.inflight = a
@@ -727,6 +792,16 @@ func (s *c13Sched) apply(e c13Ev) {
 			s.needRewrap = true
 			if a.kind == "new" && a.err == nil && a.pan == "" {
 				s.cur = a.target
+				s.lastGood = a.target
+			}
+			if s.empty[a.target] {
+				if a.err == nil && a.pan == "" {
+					s.cur = a.target // the empty set is installed (unchanged tree)
+					s.classes["empty-set-installed"] = true
+				} else {
+					s.dead[a.target] = true // the file was refused: the old set stays
+					s.classes["empty-file-refused"] = true
+				}
 			}
 		} else {
 			a.needHi = true
@@ -734,7 +809,13 @@ func (s *c13Sched) apply(e c13Ev) {
 			// or being installed while the request ran
 			a.window = nil
 			for w := a.lo; w <= s.startedMax || w <= s.cur; w++ {
-				a.window = append(a.window, w)
+				switch {
+				case s.dead[w]:
+				case s.empty[w]:
+					a.window = append(a.window, w+c13EmptyBase)
+				default:
+					a.window = append(a.window, w)
+				}
 			}
 		}
 	}
@@ -805,15 +886,16 @@ func (s *c13Sched) settle() error {
 				if a.state != c13Blocked {
 					continue
 				}
-				if g := d[a.gid]; g.blocked() {
+				if g := d[a.gid]; g.blocked() || g.polling() {
 					a.lastWait = g.text
+					a.polls = g.polling()
 				} else {
 					a.state = c13Running
 					changed = true
 				}
 			}
 			if !changed && len(s.ev) == 0 {
-				if s.inflight != nil && s.inflight.state == c13Blocked {
+				if s.inflight != nil && s.inflight.state == c13Blocked && !s.inflight.polls {
 					// cross-check: a writer that waits makes TryRLock fail
 					if s.p.selectorMutex.TryRLock() {
 						s.p.selectorMutex.RUnlock()
@@ -849,8 +931,12 @@ func (s *c13Sched) settle() error {
 		d := c13Dump()
 		s.dumps++
 		for _, a := range s.all() {
-			if a.state == c13Running && a.gid != 0 && d[a.gid].blocked() {
+			if a.state == c13Running && a.gid != 0 && (d[a.gid].blocked() || d[a.gid].polling()) {
 				a.state = c13Blocked
+				a.polls = d[a.gid].polling()
+				if a.polls {
+					s.classes["actor-polls-in-registrar-code"] = true
+				}
 				if !a.reload {
 					s.classes["reader-queued-behind-writer"] = true
 				}
@@ -978,7 +1064,7 @@ func c13Run(e *c13Env, c c13Case) (res c13Result) {
 		res.Nontriv = s.nontrivial
 	}()
 	si := 0
-	stallMsg := ""
+	stallMsg, stallKey := "", "stall"
 	for step := 0; ; step++ {
 		if step > 4096 {
 			res.Harness = "schedule does not terminate"
@@ -1019,14 +1105,40 @@ func c13Run(e *c13Env, c c13Case) (res c13Result) {
 			case <-tm.C:
 			}
 			d := c13Dump()
+			var poller *c13Actor
 			for _, a := range open {
-				if g, ok := d[a.gid]; !ok || !g.blocked() {
+				g, ok := d[a.gid]
+				if ok && g.polling() {
+					poller = a
+					continue
+				}
+				if !ok || !g.blocked() {
 					res.Harness = fmt.Sprintf("unfinished actor %s is not in a lock wait after the final wait: %s", a.name, s.describe(d))
 					return
 				}
 			}
 			if len(s.ev) > 0 {
 				continue
+			}
+			if poller != nil {
+				// an actor sleeps in a wait loop of the registrar while nothing else runs: it may end
+				// by itself, so only a long hang watchdog applies
+				tm := time.NewTimer(c13SettleTimeout)
+				select {
+				case ev := <-s.ev:
+					tm.Stop()
+					s.apply(ev)
+					if err := s.settle(); err != nil {
+						res.Harness = err.Error()
+						return
+					}
+					continue
+				case <-tm.C:
+				}
+				res.Stalled = true
+				stallMsg = fmt.Sprintf("%s does not return although nothing else is running: after %v it still sleeps in a wait loop of the registrar: %s", poller.name, c13SettleTimeout, s.describe(c13Dump()))
+				stallKey = "stall:not-returning"
+				break
 			}
 			c13StallsSeen.Add(1)
 			res.Stalled = true
@@ -1122,7 +1234,7 @@ func c13Run(e *c13Env, c c13Case) (res c13Result) {
 		}
 	}
 	if res.Stalled {
-		first("stall", stallMsg)
+		first(stallKey, stallMsg)
 		return
 	}
 
@@ -1196,10 +1308,19 @@ func c13Run(e *c13Env, c c13Case) (res c13Result) {
 			first("request-panic", "request after "+tag+" panicked: "+pan)
 			return false
 		}
-		set, _, k, m := e.c13Judge("dual", resp, err, nil)
+		var window []int
+		if s.empty[want] {
+			window = []int{want + c13EmptyBase}
+		}
+		set, refused, k, m := e.c13Judge("dual", resp, err, window)
 		if k != "" {
 			first(k, "request after "+tag+": "+m)
 			return false
+		}
+		if refused || (s.empty[want] && set == s.lastGood) {
+			// the installed set is the empty one: the request is refused (an implementation that
+			// returns nil for such a file but keeps the previous set is tolerated as well)
+			return true
 		}
 		if set != want {
 			first("final-set", fmt.Sprintf("after %s the registrar answers from set %d, expected set %d (%s)", tag, set, want, what))
@@ -1209,7 +1330,7 @@ func c13Run(e *c13Env, c c13Case) (res c13Result) {
 	}
 	what := "a successful reload is not in effect"
 	if len(s.reloads) > 0 {
-		if last := s.reloads[len(s.reloads)-1]; last.kind != "new" {
+		if last := s.reloads[len(s.reloads)-1]; last.kind != "new" && !s.empty[last.target] {
 			what = "a failed reload changed the installed set, or an earlier successful reload is not in effect"
 		}
 	}
@@ -1430,18 +1551,21 @@ func c13RunScens(t *testing.T, rec *vh.Rec, e *c13Env, scens []c13Scen, reduce b
 // TestVerif_C13_exhaustive: literally every interleaving of the moves {start request, resume parked
 // request, start next reload} for small scenarios.
 func TestVerif_C13_exhaustive(t *testing.T) {
-	rec := vh.NewRec("C13", "exhaustive", "all interleavings of harness-owned moves (start a request; resume a request parked at entry/exit of an address selection; start the next reload) for every multiset of k requests over {dual,v4,v6} plus, with {valid,unreadable} reloads, over the kinds whose selection fails {badgen: unknown generation; v6x: IPv6 only from a generation with IPv4 subnets only; dualx: dual-stack on that generation; dualalt: dual-stack on a generation that lacks IPv6 in every second set} and every sequence of m reloads over {valid file with disjoint subnets, unreadable file, invalid file}; quick: k<=2,m=1; thorough: k<=2,m<=2, and k=3,m=1 over {valid,unreadable} (three dual-stack requests: valid only) where requests of the same kind are started in index order (they are interchangeable, so this loses nothing); non-trivial = a reload starts while a dual-stack request is parked between its two selections; distinct by (scenario, schedule)")
+	rec := vh.NewRec("C13", "exhaustive", "all interleavings of harness-owned moves (start a request; resume a request parked at entry/exit of an address selection; start the next reload) for every multiset of k requests over {dual,v4,v6} plus, with {valid,unreadable} reloads, over the kinds whose selection fails {badgen: unknown generation; v6x: IPv6 only from a generation with IPv4 subnets only; dualx: dual-stack on that generation; dualalt: dual-stack on a generation that lacks IPv6 in every second set} and every sequence of m reloads over {valid file with disjoint subnets, unreadable file, invalid file} and, for {dual,v4,v6}, over the files that parse but define no usable generation {0 bytes, no Networks table, empty Networks table, truncated mid-table: the unchanged tree installs them and refuses every registration until the next good reload; refusing the file and keeping the old set is accepted too}; quick: k<=2,m=1; thorough: k<=2,m<=2, and k=3,m=1 over {valid,unreadable} (three dual-stack requests: valid only) where requests of the same kind are started in index order (they are interchangeable, so this loses nothing); non-trivial = a reload starts while a dual-stack request is parked between its two selections; distinct by (scenario, schedule)")
 	defer rec.Flush()
 	e := c13NewEnv(t)
 	if c13Replay(t, rec, e) {
 		return
 	}
-	rec.Require("reload-between-selections", "reload-inside-selection", "reload-ok", "reload-failed", "dual", "v4", "v6", "badgen", "v6x", "dualx", "dualalt", "refused", "overlapped-request-refused")
+	rec.Require("reload-between-selections", "reload-inside-selection", "reload-ok", "reload-failed", "dual", "v4", "v6", "badgen", "v6x", "dualx", "dualalt", "refused", "overlapped-request-refused", "reload-empty-family", "empty-set-installed")
 	all := []string{"new", "missing", "garbage"}
 	two := []string{"new", "missing"}
 	scens := c13Scens(c13ReqKinds, 1, 2, 1, all, false)
 	scens = append(scens, c13Scens(c13AllReqKinds, 1, 2, 1, two, false)...)
+	scens = append(scens, c13Scens(c13ReqKinds, 1, 2, 1, c13EmptyKinds, false)...)
 	if vh.Thorough() {
+		scens = append(scens, c13Scens(c13AllReqKinds, 1, 2, 1, c13EmptyKinds, false)...)
+		scens = append(scens, c13Scens(c13ReqKinds, 1, 2, 2, []string{"new", "emptynet", "trunc"}, false)...)
 		scens = append(scens, c13Scens(c13ReqKinds, 1, 2, 2, all, false)...)
 		scens = append(scens, c13Scens(c13AllReqKinds, 1, 2, 2, two, false)...)
 		for _, sc := range c13Scens(c13ReqKinds, 3, 3, 1, two, true) {
@@ -1470,7 +1594,7 @@ func TestVerif_C13_reduced(t *testing.T) {
 	if c13Replay(t, rec, e) {
 		return
 	}
-	rec.Require("reload-between-selections", "reload-ok", "reload-failed", "k=3", "m=2", "badgen", "v6x", "dualx", "dualalt", "refused", "overlapped-request-refused")
+	rec.Require("reload-between-selections", "reload-ok", "reload-failed", "k=3", "m=2", "badgen", "v6x", "dualx", "dualalt", "refused", "overlapped-request-refused", "reload-empty-family", "empty-set-installed")
 	all := []string{"new", "missing", "garbage"}
 	two := []string{"new", "missing"}
 	var scens []c13Scen
@@ -1482,9 +1606,13 @@ func TestVerif_C13_reduced(t *testing.T) {
 		scens = append(scens, c13Scens(c13ReqKinds, 1, 2, 3, two, false)...)
 		scens = append(scens, c13Scens(c13AllReqKinds, 1, 2, 3, []string{"new"}, false)...)
 		scens = append(scens, c13Scens(c13ReqKinds, 4, 4, 2, []string{"new"}, false)...)
+		scens = append(scens, c13Scens(c13ReqKinds, 3, 3, 1, c13EmptyKinds, false)...)
+		scens = append(scens, c13Scens(c13AllReqKinds, 1, 3, 2, []string{"new", "emptynet", "trunc"}, false)...)
 	} else {
 		scens = append(scens, c13Scens(c13AllReqKinds, 3, 3, 1, two, false)...)
 		scens = append(scens, c13Scens(c13AllReqKinds, 1, 2, 2, two, false)...)
+		scens = append(scens, c13Scens(c13ReqKinds, 3, 3, 1, []string{"emptynet", "trunc"}, false)...)
+		scens = append(scens, c13Scens(c13ReqKinds, 1, 2, 2, []string{"new", "emptynet", "empty"}, false)...)
 		for _, sc := range c13Scens(c13ReqKinds, 3, 3, 2, []string{"new"}, false) {
 			if sc.reqs[1] == "dual" { // multisets are sorted dual first: at least two dual-stack requests
 				scens = append(scens, sc)
@@ -1502,7 +1630,7 @@ func c13Gen(rt *rapid.T) c13Case {
 		c.Reqs = append(c.Reqs, rapid.SampledFrom([]string{"dual", "dual", "dual", "v4", "v6", "dualalt", "dualalt", "dualx", "badgen", "v6x"}).Draw(rt, "req"))
 	}
 	for i := 0; i < m; i++ {
-		c.Reloads = append(c.Reloads, rapid.SampledFrom([]string{"new", "new", "new", "missing", "garbage"}).Draw(rt, "reload"))
+		c.Reloads = append(c.Reloads, rapid.SampledFrom([]string{"new", "new", "new", "new", "missing", "garbage", "empty", "nonet", "emptynet", "trunc"}).Draw(rt, "reload"))
 	}
 	c.Picks = rapid.SliceOfN(rapid.IntRange(0, 7), 0, 5*k+m).Draw(rt, "picks")
 	return c
@@ -1510,13 +1638,13 @@ func c13Gen(rt *rapid.T) c13Case {
 
 // TestVerif_C13_random: rapid-drawn scenarios and schedules beyond the enumerated sizes.
 func TestVerif_C13_random(t *testing.T) {
-	rec := vh.NewRec("C13", "random", "rapid-drawn scenarios (1-6 requests over {dual,v4,v6,dualalt,dualx,badgen,v6x}, 1-4 sequential reloads over {valid,unreadable,invalid}) with a drawn list of scheduler picks (index into the enabled moves), completed first-enabled-first; non-trivial and distinct as in the exhaustive sub-check")
+	rec := vh.NewRec("C13", "random", "rapid-drawn scenarios (1-6 requests over {dual,v4,v6,dualalt,dualx,badgen,v6x}, 1-4 sequential reloads over {valid,unreadable,invalid,empty,nonet,emptynet,trunc}) with a drawn list of scheduler picks (index into the enabled moves), completed first-enabled-first; non-trivial and distinct as in the exhaustive sub-check")
 	defer rec.Flush()
 	e := c13NewEnv(t)
 	if c13Replay(t, rec, e) {
 		return
 	}
-	rec.Require("reload-between-selections", "reload-ok", "reload-failed", "dual", "badgen", "v6x", "dualx", "dualalt", "refused")
+	rec.Require("reload-between-selections", "reload-ok", "reload-failed", "dual", "badgen", "v6x", "dualx", "dualalt", "refused", "reload-empty-family", "empty-set-installed")
 	rapid.Check(t, func(rt *rapid.T) {
 		c13Check(rt, rec, e, c13Gen(rt))
 	})
